@@ -54,7 +54,8 @@ type Exec struct {
 	v     Variant
 	c     Coll
 	ctr   counter
-	ref   []entry // sorted by rank, one entry per equivalence class
+	ref   []entry              // sorted by rank, one entry per equivalence class
+	reps  map[int]map[int]bool // rank -> the keys put under it since the class was last absent
 	its   [8]*liveIter
 	fails []*failure // the first failure of each property (kind prefix c01 / c02 / c03), in order of occurrence
 	nline int        // lines executed so far
@@ -76,7 +77,7 @@ type Exec struct {
 const bigFillKeys = 136
 
 func newExec(mon bool) *Exec {
-	return &Exec{mon: mon, lastSweepOp: -1, st: stats{ops: map[string]int{}, bk: map[string]int{}}}
+	return &Exec{mon: mon, lastSweepOp: -1, reps: map[int]map[int]bool{}, st: stats{ops: map[string]int{}, bk: map[string]int{}}}
 }
 
 // runOnly re-executes the lines with the monitors of one property.
@@ -195,6 +196,7 @@ func (e *Exec) apply(f []string) (string, *Shape) {
 			return "bad-op", nil
 		}
 		e.v, e.ctr, e.ref, e.its, e.last, e.fresh = v, counter{}, nil, [8]*liveIter{}, nil, false
+		e.reps = map[int]map[int]bool{}
 		e.c = makeColl(v, &e.ctr)
 		e.after(false, nil, 0, false, nil)
 		return "ok", nil
@@ -245,7 +247,9 @@ func (e *Exec) apply(f []string) (string, *Shape) {
 		switch {
 		case op == "put" && found:
 			e.ref[i].v = v
+			e.reps[r][k] = true
 		case op == "put":
+			e.reps[r] = map[int]bool{k: true}
 			e.ref = append(e.ref, entry{})
 			copy(e.ref[i+1:], e.ref[i:])
 			e.ref[i] = entry{k, v}
@@ -256,6 +260,7 @@ func (e *Exec) apply(f []string) (string, *Shape) {
 			}
 		case found:
 			e.ref = append(e.ref[:i], e.ref[i+1:]...)
+			delete(e.reps, r)
 			for _, it := range e.its {
 				if it != nil {
 					delete(it.S, r)
